@@ -13,7 +13,37 @@ var plainLabels = []string{"a", "b", "c", "d", "m", "x", "z", "ab", "a0", "-", "
 var oddLabels = []string{"A", "B", "Ab", "\x00", "\xff", "a.b", ".", "\\", " ", "a\\", "**", "\xc3\xa9", "@", "a b", "Z", "[", "`", "{", "\x41\x00", "*a",
 	strings.Repeat("k", 63)}
 
+// foldOctets: octets around every boundary a case-folding routine could get
+// wrong (RFC 4034 6.1 folds US-ASCII letters ONLY): the ASCII letter block and
+// its neighbours, and the Latin-1 "letters" 0xC0-0xDE / 0xE0-0xFE that
+// unicode-aware folds also map onto each other.
+var foldOctets = []byte{0x00, 0x1f, 0x20, 0x2e, 0x3f, 0x40, 0x41, 0x4d, 0x5a, 0x5b, 0x5c, 0x5f, 0x60, 0x61, 0x6d, 0x7a, 0x7b, 0x7f,
+	0x80, 0x8a, 0x9a, 0x9f, 0xa0, 0xaa, 0xb5, 0xba, 0xbf, 0xc0, 0xc8, 0xd0, 0xd6, 0xd7, 0xd8, 0xde, 0xdf, 0xe0, 0xe6, 0xe8, 0xf0, 0xf6, 0xf7, 0xf8, 0xfa, 0xfe, 0xff}
+
+// binaryZone: the zone under construction draws its labels from raw octets
+// (set per zone by genZone).
+var binaryZone bool
+
+func binLabel(r *vlib.R) string {
+	n := 1
+	if r.Chance(1, 4) {
+		n = 2
+	}
+	b := make([]byte, n)
+	for i := range b {
+		if r.Chance(1, 4) {
+			b[i] = byte(r.Intn(256))
+		} else {
+			b[i] = vlib.Pick(r, foldOctets)
+		}
+	}
+	return string(b)
+}
+
 func genLabel(r *vlib.R) string {
+	if binaryZone && r.Chance(4, 5) {
+		return binLabel(r)
+	}
 	if r.Chance(1, 6) {
 		return vlib.Pick(r, oddLabels)
 	}
@@ -41,6 +71,7 @@ func dataTypes(r *vlib.R) []uint16 {
 }
 
 func genZone(r *vlib.R) *zone {
+	binaryZone = r.Chance(1, 7)
 	apexes := []string{"example", "ex.test", "z", "a.b.c", "~41.org", "x.y"}
 	z := newZone(parseName(vlib.Pick(r, apexes)), 1)
 	at := []uint16{tSOA, tNS, tDNSKEY}
@@ -136,6 +167,18 @@ func tweak(r *vlib.R, l string) string {
 		l = l[:62]
 	}
 	b := []byte(l)
+	if binaryZone && r.Chance(1, 2) {
+		// the octet a wrong fold would confuse it with
+		switch r.Intn(3) {
+		case 0:
+			b[len(b)-1] ^= 0x20
+		case 1:
+			b[len(b)-1] += 0x20
+		default:
+			b[len(b)-1] -= 0x20
+		}
+		return string(b)
+	}
 	switch r.Intn(6) {
 	case 0:
 		return l + "0"
@@ -595,6 +638,27 @@ func genNsecCase(r *vlib.R, emit func(string)) int {
 			cnt++
 		}
 	}
+	// forged denial of an EXISTING owner: the whole genuine chain replayed except
+	// the one record that would give the name away; only a comparison that puts
+	// the name inside a neighbour's span can accept it
+	if ch := z.chain(); len(ch) > 1 && (binaryZone || r.Chance(1, 4)) {
+		for k := 0; k < 2; k++ {
+			victim := ch[1+r.Intn(len(ch)-1)].owner
+			var set []rec
+			for _, rc := range ch {
+				if !rc.owner.eq(victim) {
+					set = append(set, rc)
+				}
+			}
+			emit("z set " + recsStr(set))
+			t := vlib.Pick(r, qtypes)
+			emit(fmt.Sprintf("z truth %s %d", victim, t))
+			emit(fmt.Sprintf("z nxd %s %s %d", z.apex, victim, t))
+			emit(fmt.Sprintf("z nod %s %s %d", z.apex, victim, t))
+			emit(fmt.Sprintf("z agg %s %s %d 1", z.apex, victim, t))
+			cnt += 5
+		}
+	}
 	// name-level primitives on names around this zone
 	for i := 0; i < 3; i++ {
 		a, b, c := genQuery(r, z), genQuery(r, z), genQuery(r, z)
@@ -682,6 +746,29 @@ func gen(r *vlib.R, n int, tier string, emit func(string)) {
 // witnessOps: the minimal shapes of the five findings fixed by /repo commit 4841eb0
 // (the exact validators must keep refusing them), always run first.
 func witnessOps() []string {
+	return append(foldSweep(), witnessOps0()...)
+}
+
+// foldSweep: RFC 4034 6.1 octet order, every octet against the octets a wrong
+// case fold would identify it with or move it past (a^0x20, a+-0x20), as
+// single-label names and as span end points.
+func foldSweep() []string {
+	var out []string
+	z := name{"z"}
+	for a := 0; a < 256; a++ {
+		la := z.child(string([]byte{byte(a)}))
+		for _, b := range []int{a ^ 0x20, (a + 0x20) & 0xff, (a + 1) & 0xff} {
+			lb := z.child(string([]byte{byte(b)}))
+			out = append(out, fmt.Sprintf("z cmp %s %s", la, lb))
+		}
+		// span (a-2 -> a+0x22): does it cover a+0x20's fold partner, i.e. a itself / a^0x20
+		lo, hi := z.child(string([]byte{byte(a + 0x1e)})), z.child(string([]byte{byte(a + 0x22)}))
+		out = append(out, fmt.Sprintf("z covers %s %s %s", lo, hi, la))
+	}
+	return out
+}
+
+func witnessOps0() []string {
 	return []string{
 		// RFC 6840 4.1: ancestor delegation NSEC used to deny a name below the cut
 		"z new example 1 example:2,6,46,47,48;sub.example:2,46,47;zzz.example:1,46,47",
